@@ -57,13 +57,28 @@ def run_all(rp, tier='quick'):
                 probs.append('convert_slots_to_old raised %r' % e)
             if probs:
                 viol.append(dict(id='roundtrip:%s-%s' % (ce, ge), detail='%s: %s' % (name, '; '.join(probs[:2])), input=dict(slots=str(old)[:300])))
+    # new-format slots as components hand them around (version set), cores and GPUs in any
+    # mix of the accepted encodings, straight into convert_slots_to_old
+    for ce, ge in itertools.product(('ints', 'dicts', 'ros'), repeat=2):
+        for cores, gpus in (([0], []), ([3, 5], [1]), ([], [2, 0]), ([0, 1, 4, 5], [0, 2])):
+            n += 1
+            slots = [{'version': 1, 'node_name': 'n1', 'node_index': 4, 'cores': enc[ce](cores), 'gpus': enc[ge](gpus), 'lfs': 3, 'mem': 5}]
+            name = 'new-format slot, cores as %s, gpus as %s, cores %s gpus %s' % (ce, ge, cores, gpus)
+            try:
+                back = convert_slots_to_old(copy.deepcopy(slots))
+                b = back[0]
+                if b['cores'] != [[c] for c in cores] or b['gpus'] != [[g] for g in gpus] or b.get('node_index', b.get('node_id')) != 4:
+                    viol.append(dict(id='to-old:%s-%s' % (ce, ge), input=dict(slots=str(slots)[:300]),
+                                     detail='%s: convert_slots_to_old gives cores %s gpus %s' % (name, str(b['cores'])[:80], str(b['gpus'])[:80])))
+            except Exception as e:
+                viol.append(dict(id='to-old:%s-%s' % (ce, ge), detail='%s: convert_slots_to_old raised %r' % (name, e), input=dict(slots=str(slots)[:300])))
     # one violation per encoding pair is enough
     seen, out = set(), []
     for v in viol:
         if v['id'] in seen: continue
         seen.add(v['id']); out.append(v)
     return dict(cases=n, violations=out[:6],
-                bound='%d conversions: 4 encodings of cores x 4 encodings of GPUs x 4 index sets, old -> new -> old' % n)
+                bound='%d conversions: 4 encodings of cores x 4 encodings of GPUs x 4 index sets, old -> new -> old; 3 x 3 encodings x 4 index sets of new-format slots -> old' % n)
 
 
 @builder('utils/misc.py:convert_slots_to_new', 'utils/misc.py:convert_slots_to_old')
